@@ -1,13 +1,719 @@
-//! C05 — not implemented yet.
+//! C05 — rolling appender never loses, duplicates, reorders or splits records.
+//! Real code: `RollingFileAppender` + `CompoundPolicy` with the real size / on-start-up / time
+//! triggers (clock hook) or a harness-defined scripted trigger, and the real delete / fixed-window
+//! rollers. This module is also the shared executor and generator for C06 and C17 (same case format).
+use crate::c04::{gen_bytes, random_sizes, read_from_other_thread, set_amplifier, RecSpec, Scratch, ScriptEncoder};
+use crate::proto::*;
 use crate::rng::Rng;
+use log4rs::append::rolling_file::policy::compound::roll::delete::DeleteRoller;
+use log4rs::append::rolling_file::policy::compound::roll::fixed_window::FixedWindowRoller;
+use log4rs::append::rolling_file::policy::compound::roll::Roll;
+use log4rs::append::rolling_file::policy::compound::trigger::onstartup::OnStartUpTrigger;
+use log4rs::append::rolling_file::policy::compound::trigger::size::SizeTrigger;
+use log4rs::append::rolling_file::policy::compound::trigger::time::{TimeTrigger, TimeTriggerInterval};
+use log4rs::append::rolling_file::policy::compound::trigger::Trigger;
+use log4rs::append::rolling_file::policy::compound::CompoundPolicy;
+use log4rs::append::rolling_file::policy::Policy;
+use log4rs::append::rolling_file::{LogFile, RollingFileAppender};
+use std::collections::VecDeque;
+use std::io::{Read, Write};
+use std::path::{Path, PathBuf};
+use std::sync::atomic::{AtomicI64, AtomicU64, Ordering};
+use std::sync::{Arc, Barrier, Mutex};
 
-pub fn gen(_rng: &mut Rng, _n: usize, _thorough: bool, _emit: &mut dyn FnMut(String)) {}
-
-pub fn exec(_fields: &[&str]) -> String {
-    "unimplemented".to_owned()
+#[derive(Clone, Debug)]
+pub enum TrigSpec {
+    Size(u64),
+    Startup(u64),
+    Time { unit: char, n: u64, modulate: bool },
+    Scripted { pre: bool, answers: String },
 }
 
-/// child-process entry point (`verif-harness child c05 …`), for checks that need process-global state
+#[derive(Clone, Debug)]
+pub enum RollSpec {
+    Delete,
+    Fw { base: u32, count: u32, pat: u32 },
+}
+
+#[derive(Clone, Debug)]
+pub struct Case {
+    pub append: bool,
+    pub pre_active: Option<u64>,
+    pub pre_arch: Vec<(u32, u64)>,
+    pub trig: TrigSpec,
+    pub roll: RollSpec,
+    pub clock0: i64,
+}
+
+pub fn pattern(pat: u32) -> &'static str {
+    match pat {
+        0 => "app.log.{}",
+        1 => "arch/app.{}.log",
+        2 => "app.log.{}.gz",
+        3 => "arch/{}/app.log.zst",
+        _ => "app.{}.{}.log",
+    }
+}
+
+impl TrigSpec {
+    pub fn parse(s: &str) -> Option<TrigSpec> {
+        let f: Vec<&str> = s.split(':').collect();
+        match f.as_slice() {
+            ["size", n] => Some(TrigSpec::Size(n.parse().ok()?)),
+            ["startup", m] => Some(TrigSpec::Startup(m.parse().ok()?)),
+            ["time", u, n, m] => Some(TrigSpec::Time {
+                unit: match *u {
+                    "s" => 's',
+                    "m" => 'm',
+                    _ => return None,
+                },
+                n: n.parse().ok()?,
+                modulate: match *m {
+                    "1" => true,
+                    "0" => false,
+                    _ => return None,
+                },
+            }),
+            ["spre", a] | ["spost", a] => {
+                let answers = if *a == "-" { String::new() } else { a.to_string() };
+                if !answers.chars().all(|c| "yne".contains(c)) {
+                    return None;
+                }
+                Some(TrigSpec::Scripted { pre: f[0] == "spre", answers })
+            }
+            _ => None,
+        }
+    }
+    pub fn render(&self) -> String {
+        match self {
+            TrigSpec::Size(n) => format!("size:{}", n),
+            TrigSpec::Startup(m) => format!("startup:{}", m),
+            TrigSpec::Time { unit, n, modulate } => format!("time:{}:{}:{}", unit, n, enc_bool(*modulate)),
+            TrigSpec::Scripted { pre, answers } => {
+                format!("{}:{}", if *pre { "spre" } else { "spost" }, if answers.is_empty() { "-" } else { answers })
+            }
+        }
+    }
+}
+
+impl RollSpec {
+    pub fn parse(s: &str) -> Option<RollSpec> {
+        let f: Vec<&str> = s.split(':').collect();
+        match f.as_slice() {
+            ["delete"] => Some(RollSpec::Delete),
+            ["fw", b, c, p] => {
+                let pat: u32 = p.parse().ok()?;
+                if pat > 4 {
+                    return None;
+                }
+                Some(RollSpec::Fw { base: b.parse().ok()?, count: c.parse().ok()?, pat })
+            }
+            _ => None,
+        }
+    }
+    pub fn render(&self) -> String {
+        match self {
+            RollSpec::Delete => "delete".to_owned(),
+            RollSpec::Fw { base, count, pat } => format!("fw:{}:{}:{}", base, count, pat),
+        }
+    }
+    pub fn has_hook(&self) -> bool {
+        matches!(self, RollSpec::Fw { count, .. } if *count > 0)
+    }
+    fn pat(&self) -> u32 {
+        match self {
+            RollSpec::Delete => 0,
+            RollSpec::Fw { pat, .. } => *pat,
+        }
+    }
+}
+
+impl Case {
+    pub fn parse(f: &[&str]) -> Option<Case> {
+        if f.len() != 6 {
+            return None;
+        }
+        let append = match f[0] {
+            "a" => true,
+            "t" => false,
+            _ => return None,
+        };
+        let pre_active = if f[1] == "-" { None } else { Some(f[1].parse().ok()?) };
+        let mut pre_arch = vec![];
+        for e in dec_list(',', f[2]) {
+            let (i, n) = e.split_once(':')?;
+            pre_arch.push((i.parse().ok()?, n.parse().ok()?));
+        }
+        Some(Case {
+            append,
+            pre_active,
+            pre_arch,
+            trig: TrigSpec::parse(f[3])?,
+            roll: RollSpec::parse(f[4])?,
+            clock0: f[5].parse().ok()?,
+        })
+    }
+    pub fn render(&self) -> String {
+        format!(
+            "{}\t{}\t{}\t{}\t{}\t{}",
+            if self.append { "a" } else { "t" },
+            enc_opt(self.pre_active, |n| n.to_string()),
+            enc_list(",", &self.pre_arch.iter().map(|(i, n)| format!("{}:{}", i, n)).collect::<Vec<_>>()),
+            self.trig.render(),
+            self.roll.render(),
+            self.clock0
+        )
+    }
+}
+
+fn compress_for(name: &str, data: &[u8]) -> Vec<u8> {
+    if name.ends_with(".gz") {
+        let mut e = flate2::write::GzEncoder::new(Vec::new(), flate2::Compression::default());
+        e.write_all(data).unwrap();
+        e.finish().unwrap()
+    } else if name.ends_with(".zst") {
+        zstd::encode_all(data, 3).unwrap()
+    } else {
+        data.to_vec()
+    }
+}
+
+fn decompress_for(name: &str, data: Vec<u8>) -> Result<Vec<u8>, ()> {
+    if name.ends_with(".gz") {
+        let mut out = vec![];
+        flate2::read::GzDecoder::new(&data[..]).read_to_end(&mut out).map_err(|_| ())?;
+        Ok(out)
+    } else if name.ends_with(".zst") {
+        zstd::decode_all(&data[..]).map_err(|_| ())
+    } else {
+        Ok(data)
+    }
+}
+
+fn walk(root: &Path, dir: &Path, out: &mut Vec<(String, Vec<u8>)>) {
+    let mut entries: Vec<_> = match std::fs::read_dir(dir) {
+        Ok(rd) => rd.filter_map(|e| e.ok()).collect(),
+        Err(_) => return,
+    };
+    entries.sort_by_key(|e| e.file_name());
+    for e in entries {
+        let p = e.path();
+        if p.is_dir() {
+            walk(root, &p, out);
+        } else {
+            let name = p.strip_prefix(root).unwrap().to_string_lossy().into_owned();
+            let raw = std::fs::read(&p).unwrap_or_default();
+            match decompress_for(&name, raw) {
+                Ok(b) => out.push((name, b)),
+                Err(()) => out.push((format!("{}#corrupt", name), vec![])),
+            }
+        }
+    }
+}
+
+/// full recursive snapshot, names relative to the scratch directory, archives decompressed, sorted
+pub fn snapshot(root: &Path) -> String {
+    let mut v = vec![];
+    walk(root, root, &mut v);
+    v.sort_by(|a, b| a.0.cmp(&b.0));
+    enc_list(";", &v.iter().map(|(n, b)| format!("{}={}", n, enc_bytes(b))).collect::<Vec<_>>())
+}
+
+#[derive(Debug)]
+struct ScriptedTrigger {
+    pre: bool,
+    script: Arc<Mutex<VecDeque<char>>>,
+}
+
+impl Trigger for ScriptedTrigger {
+    fn trigger(&self, _file: &LogFile) -> anyhow::Result<bool> {
+        match self.script.lock().unwrap().pop_front() {
+            Some('y') => Ok(true),
+            Some('e') => anyhow::bail!("scripted trigger error"),
+            _ => Ok(false),
+        }
+    }
+    fn is_pre_process(&self) -> bool {
+        self.pre
+    }
+}
+
+/// wraps the real policy; records what the policy is shown against the true size on disk
+#[derive(Debug)]
+struct ProbePolicy {
+    inner: CompoundPolicy,
+    probe: Arc<Mutex<Option<(u64, u64)>>>,
+}
+
+impl Policy for ProbePolicy {
+    fn process(&self, log: &mut LogFile) -> anyhow::Result<()> {
+        let shown = log.len_estimate();
+        let actual = std::fs::metadata(log.path()).map(|m| m.len()).unwrap_or(u64::MAX);
+        *self.probe.lock().unwrap() = Some((shown, actual));
+        self.inner.process(log)
+    }
+    fn is_pre_process(&self) -> bool {
+        self.inner.is_pre_process()
+    }
+}
+
+pub struct Env {
+    pub case: Case,
+    pub scratch: Scratch,
+    pub path: PathBuf,
+    script: Arc<Mutex<VecDeque<char>>>,
+    pub probe: Arc<Mutex<Option<(u64, u64)>>>,
+    pub clock: Arc<AtomicI64>,
+    fault_at: Arc<AtomicI64>,
+    fault_ctr: Arc<AtomicU64>,
+}
+
+impl Env {
+    pub fn new(case: Case, tag: &str) -> Env {
+        std::env::set_var("TZ", "UTC");
+        let scratch = Scratch::new(tag);
+        let path = scratch.path().join("app.log");
+        let pat = pattern(case.roll.pat());
+        for (i, n) in &case.pre_arch {
+            let name = pat.replace("{}", &i.to_string());
+            let p = scratch.path().join(&name);
+            std::fs::create_dir_all(p.parent().unwrap()).unwrap();
+            std::fs::write(&p, compress_for(&name, &gen_bytes(998000 + *i as u64, *n))).unwrap();
+        }
+        if let Some(n) = case.pre_active {
+            std::fs::write(&path, gen_bytes(999000, n)).unwrap();
+        }
+        let script = match &case.trig {
+            TrigSpec::Scripted { answers, .. } => answers.chars().collect(),
+            _ => VecDeque::new(),
+        };
+        let clock = Arc::new(AtomicI64::new(case.clock0));
+        let c2 = clock.clone();
+        log4rs::verif_hooks::set_now(Some(Arc::new(move || Some((c2.load(Ordering::SeqCst), 0)))));
+        let fault_at = Arc::new(AtomicI64::new(-1));
+        let fault_ctr = Arc::new(AtomicU64::new(0));
+        let (fa, fc) = (fault_at.clone(), fault_ctr.clone());
+        log4rs::verif_hooks::set_rotate_point(Some(Arc::new(move |_step: u32| {
+            let k = fc.fetch_add(1, Ordering::SeqCst) as i64;
+            if k == fa.load(Ordering::SeqCst) {
+                Err(std::io::Error::new(std::io::ErrorKind::Other, "injected"))
+            } else {
+                Ok(())
+            }
+        })));
+        Env {
+            case,
+            scratch,
+            path,
+            script: Arc::new(Mutex::new(script)),
+            probe: Arc::new(Mutex::new(None)),
+            clock,
+            fault_at,
+            fault_ctr,
+        }
+    }
+
+    /// build a new appender on the path: new trigger and roller objects (the script is shared)
+    pub fn build(&self) -> RollingFileAppender {
+        let trigger: Box<dyn Trigger> = match &self.case.trig {
+            TrigSpec::Size(n) => Box::new(SizeTrigger::new(*n)),
+            TrigSpec::Startup(m) => Box::new(OnStartUpTrigger::new(*m)),
+            TrigSpec::Time { unit, n, modulate } => {
+                let iv = if *unit == 's' {
+                    TimeTriggerInterval::Second(*n as i64)
+                } else {
+                    TimeTriggerInterval::Minute(*n as i64)
+                };
+                Box::new(TimeTrigger::new(TimeTrigger::verif_config(iv, *modulate, 0)))
+            }
+            TrigSpec::Scripted { pre, .. } => Box::new(ScriptedTrigger { pre: *pre, script: self.script.clone() }),
+        };
+        let roller: Box<dyn Roll> = match &self.case.roll {
+            RollSpec::Delete => Box::new(DeleteRoller::new()),
+            RollSpec::Fw { base, count, pat } => {
+                let p = format!("{}/{}", self.scratch.path().display(), pattern(*pat));
+                Box::new(FixedWindowRoller::builder().base(*base).build(&p, *count).unwrap())
+            }
+        };
+        let policy = ProbePolicy { inner: CompoundPolicy::new(trigger, roller), probe: self.probe.clone() };
+        RollingFileAppender::builder()
+            .append(self.case.append)
+            .encoder(Box::new(ScriptEncoder::new()))
+            .build(&self.path, Box::new(policy))
+            .unwrap()
+    }
+
+    pub fn arm_fault(&self, k: Option<u64>) {
+        self.fault_ctr.store(0, Ordering::SeqCst);
+        self.fault_at.store(k.map(|k| k as i64).unwrap_or(-1), Ordering::SeqCst);
+    }
+
+    pub fn snapshot(&self) -> String {
+        snapshot(self.scratch.path())
+    }
+}
+
+impl Drop for Env {
+    fn drop(&mut self) {
+        log4rs::verif_hooks::set_now(None);
+        log4rs::verif_hooks::set_rotate_point(None);
+    }
+}
+
+pub enum OpSpec {
+    Append(RecSpec, Option<u64>),
+    Restart,
+    Tick(i64),
+}
+
+pub fn parse_op(s: &str) -> Option<OpSpec> {
+    if s == "r" {
+        return Some(OpSpec::Restart);
+    }
+    if let Some(d) = s.strip_prefix('c') {
+        return Some(OpSpec::Tick(d.parse().ok()?));
+    }
+    if let Some(rest) = s.strip_prefix('f') {
+        let (k, r) = rest.split_once('!')?;
+        return Some(OpSpec::Append(RecSpec::parse(r)?, Some(k.parse().ok()?)));
+    }
+    Some(OpSpec::Append(RecSpec::parse(s)?, None))
+}
+
+pub fn exec_seq(f: &[&str]) -> String {
+    if f.len() != 7 {
+        return "bad-case".to_owned();
+    }
+    let case = match Case::parse(&f[..6]) {
+        Some(c) => c,
+        None => return "bad-case".to_owned(),
+    };
+    let mut ops = vec![];
+    for o in dec_list(',', f[6]) {
+        match parse_op(&o) {
+            Some(o) => ops.push(o),
+            None => return "bad-case".to_owned(),
+        }
+    }
+    let has_hook = case.roll.has_hook();
+    let env = Env::new(case, "c05");
+    let r = guarded(std::panic::AssertUnwindSafe(|| {
+        let mut out = vec![];
+        let mut app = Some(env.build());
+        out.push(format!("-!-!{}", env.snapshot()));
+        for op in &ops {
+            *env.probe.lock().unwrap() = None;
+            let res = match op {
+                OpSpec::Restart => {
+                    drop(app.take());
+                    app = Some(env.build());
+                    "-"
+                }
+                OpSpec::Tick(dt) => {
+                    env.clock.fetch_add(*dt, Ordering::SeqCst);
+                    "-"
+                }
+                OpSpec::Append(r, fault) => {
+                    env.arm_fault(if has_hook { *fault } else { None });
+                    let res = r.append_to(app.as_ref().unwrap());
+                    env.arm_fault(None);
+                    if res.is_ok() {
+                        "ok"
+                    } else {
+                        "err"
+                    }
+                }
+            };
+            let consult = match *env.probe.lock().unwrap() {
+                Some((a, b)) => format!("{}={}", a, b),
+                None => "-".to_owned(),
+            };
+            out.push(format!("{}!{}!{}", res, consult, env.snapshot()));
+        }
+        drop(app);
+        out.join(",")
+    }));
+    drop(env);
+    r.unwrap_or_else(|_| "PANIC".to_owned())
+}
+
+pub fn exec_conc(f: &[&str]) -> String {
+    if f.len() != 8 {
+        return "bad-case".to_owned();
+    }
+    let case = match Case::parse(&f[..6]) {
+        Some(c) => c,
+        None => return "bad-case".to_owned(),
+    };
+    let amp: u64 = match f[6].parse() {
+        Ok(a) => a,
+        Err(_) => return "bad-case".to_owned(),
+    };
+    let mut progs: Vec<Vec<RecSpec>> = vec![];
+    for t in dec_list('|', f[7]) {
+        let mut v = vec![];
+        for r in dec_list(',', &t) {
+            match RecSpec::parse(&r) {
+                Some(r) => v.push(r),
+                None => return "bad-case".to_owned(),
+            }
+        }
+        progs.push(v);
+    }
+    let env = Env::new(case, "c05c");
+    set_amplifier(amp);
+    let r = guarded(std::panic::AssertUnwindSafe(|| {
+        let app = Arc::new(env.build());
+        let barrier = Arc::new(Barrier::new(progs.len()));
+        let handles: Vec<_> = progs
+            .iter()
+            .cloned()
+            .map(|prog| {
+                let app = app.clone();
+                let barrier = barrier.clone();
+                std::thread::spawn(move || {
+                    barrier.wait();
+                    let mut acked = vec![];
+                    for r in prog {
+                        if r.append_to(&*app).is_ok() {
+                            acked.push(r.id().to_string());
+                        }
+                    }
+                    acked
+                })
+            })
+            .collect();
+        let acks: Vec<String> = handles.into_iter().map(|h| enc_list(",", &h.join().unwrap())).collect();
+        let _ = read_from_other_thread(&env.path);
+        format!("{}!{}", acks.join("|"), env.snapshot())
+    }));
+    set_amplifier(0);
+    drop(env);
+    r.unwrap_or_else(|_| "PANIC!~".to_owned())
+}
+
+pub fn exec(fields: &[&str]) -> String {
+    match fields.first() {
+        Some(&"seq") => exec_seq(&fields[1..]),
+        Some(&"conc") => exec_conc(&fields[1..]),
+        _ => "bad-case".to_owned(),
+    }
+}
+
+// ---------------------------------------------------------------------------------------------
+// generator (shared with C06 / C17 through `TrigChoice`)
+// ---------------------------------------------------------------------------------------------
+#[derive(Clone, Copy, PartialEq)]
+pub enum TrigChoice {
+    Any,
+    Size,
+    Startup,
+}
+
+const LIMITS: &[u64] = &[0, 1, 7, 100, 1024, 1025];
+const MINS: &[u64] = &[0, 1, 5, 4096];
+
+fn around(rng: &mut Rng, x: u64) -> u64 {
+    match rng.below(5) {
+        0 => x.saturating_sub(1),
+        1 => x,
+        2 => x + 1,
+        3 => 0,
+        _ => rng.range(0, x + 3),
+    }
+}
+
+pub fn gen_trigger(rng: &mut Rng, choice: TrigChoice, n_ops: usize) -> TrigSpec {
+    let k = match choice {
+        TrigChoice::Size => 0,
+        TrigChoice::Startup => 1,
+        TrigChoice::Any => rng.below(6),
+    };
+    match k {
+        0 => TrigSpec::Size(*rng.pick(LIMITS)),
+        1 => TrigSpec::Startup(*rng.pick(MINS)),
+        2 => TrigSpec::Time {
+            unit: if rng.chance(3, 4) { 's' } else { 'm' },
+            n: *rng.pick(&[1u64, 1, 2, 5, 7, 60]),
+            modulate: rng.chance(1, 2),
+        },
+        3 => TrigSpec::Time { unit: 's', n: 0, modulate: false },
+        _ => {
+            let len = rng.range(0, n_ops as u64 + 2);
+            let answers: String = (0..len)
+                .map(|_| match rng.below(10) {
+                    0..=3 => 'y',
+                    4 => 'e',
+                    _ => 'n',
+                })
+                .collect();
+            TrigSpec::Scripted { pre: k == 4, answers }
+        }
+    }
+}
+
+pub fn gen_roller(rng: &mut Rng) -> RollSpec {
+    if rng.chance(1, 6) {
+        RollSpec::Delete
+    } else {
+        RollSpec::Fw {
+            base: *rng.pick(&[0u32, 1, 3]),
+            count: *rng.pick(&[0u32, 1, 2, 3, 5]),
+            pat: if rng.chance(1, 2) { 0 } else { rng.below(5) as u32 },
+        }
+    }
+}
+
+/// record sizes relative to the limit and to the 1 KiB buffer
+fn gen_record(rng: &mut Rng, id: u64, pivot: u64, budget: &mut u64) -> RecSpec {
+    let r = match rng.below(12) {
+        0 => RecSpec::Bin { id, sizes: vec![pivot.saturating_sub(1)] },
+        1 => RecSpec::Bin { id, sizes: vec![pivot] },
+        2 => RecSpec::Bin { id, sizes: vec![pivot + 1] },
+        3 => RecSpec::Bin { id, sizes: vec![*rng.pick(&[0u64, 1, 1023, 1024, 1025, 3000])] },
+        4 => RecSpec::Bin { id, sizes: random_sizes(rng) },
+        5 => RecSpec::Text { id, text: (*rng.pick(&["", "é", "héllo wörld", "日本語", "😀😀", "naïve café\n", "€"])).to_owned() },
+        6 => {
+            // split the pivot size over several slices
+            let a = rng.range(0, pivot);
+            RecSpec::Bin { id, sizes: vec![a, pivot - a, rng.below(2)] }
+        }
+        _ => RecSpec::Bin { id, sizes: vec![rng.range(0, 12)] },
+    };
+    let sz = r.bytes().len() as u64;
+    if sz > *budget {
+        RecSpec::Bin { id, sizes: vec![rng.range(0, 6)] }
+    } else {
+        *budget -= sz;
+        r
+    }
+}
+
+pub fn gen_seq_case(rng: &mut Rng, thorough: bool, choice: TrigChoice) -> String {
+    let n_ops = if rng.chance(1, 12) { 0 } else { rng.range(1, if thorough { 60 } else { 24 }) as usize };
+    let trig = gen_trigger(rng, choice, n_ops);
+    let roll = gen_roller(rng);
+    let append = rng.chance(3, 5);
+    let pivot = match &trig {
+        TrigSpec::Size(n) => *n,
+        TrigSpec::Startup(m) => *m,
+        _ => *rng.pick(&[7u64, 100, 1024]),
+    };
+    let pre_active = match rng.below(4) {
+        0 => None,
+        _ => Some(around(rng, pivot).min(5000)),
+    };
+    let mut pre_arch = vec![];
+    if let RollSpec::Fw { base, count, .. } = &roll {
+        let dense = choice == TrigChoice::Startup || rng.chance(1, 2);
+        let k = rng.range(0, *count as u64 + 1) as u32;
+        for j in 0..k.min(*count) {
+            if dense || rng.chance(2, 3) {
+                pre_arch.push((base + j, rng.range(0, 30)));
+            }
+        }
+        // bystanders above the window
+        if rng.chance(1, 4) {
+            pre_arch.push((base + count + rng.below(2) as u32, rng.range(1, 20)));
+        }
+    }
+    let is_time = matches!(trig, TrigSpec::Time { .. });
+    let faults_ok = append && roll.has_hook() && choice == TrigChoice::Any;
+    let case = Case { append, pre_active, pre_arch, trig, roll, clock0: 1_700_000_000 + rng.below(200) as i64 };
+    let mut budget: u64 = if thorough { 14000 } else { 7000 };
+    let mut ops = vec![];
+    for i in 0..n_ops {
+        let k = rng.below(20);
+        if k == 0 || (k == 1 && choice != TrigChoice::Any) {
+            ops.push("r".to_owned());
+        } else if is_time && k < 6 {
+            ops.push(format!("c{}", *rng.pick(&[0i64, 1, 1, 2, 5, 59, 60, 61, 3600])));
+        } else if k == 2 && !is_time {
+            ops.push(format!("c{}", rng.below(100)));
+        } else {
+            let r = gen_record(rng, i as u64 + 1, pivot, &mut budget).render();
+            if faults_ok && rng.chance(1, 10) {
+                ops.push(format!("f{}!{}", rng.below(4), r));
+            } else {
+                ops.push(r);
+            }
+        }
+    }
+    format!("seq\t{}\t{}", case.render(), enc_list(",", &ops))
+}
+
+pub fn gen_conc_case(rng: &mut Rng, thorough: bool, choice: TrigChoice) -> String {
+    let nthreads = if choice == TrigChoice::Startup { 8 } else { rng.range(2, if thorough { 6 } else { 4 }) };
+    let nrecs = if choice == TrigChoice::Startup {
+        rng.range(1, 6)
+    } else {
+        rng.range(10, if thorough { 120 } else { 40 })
+    };
+    let trig = match choice {
+        TrigChoice::Startup => TrigSpec::Startup(*rng.pick(MINS)),
+        TrigChoice::Size => TrigSpec::Size(*rng.pick(&[100u64, 1024, 4096])),
+        TrigChoice::Any => match rng.below(4) {
+            0 => TrigSpec::Size(*rng.pick(&[100u64, 1024, 4096, 20000])),
+            1 => TrigSpec::Startup(*rng.pick(MINS)),
+            2 => TrigSpec::Scripted {
+                pre: rng.chance(1, 2),
+                answers: (0..nthreads * nrecs).map(|_| if rng.chance(1, 8) { 'y' } else { 'n' }).collect(),
+            },
+            _ => TrigSpec::Time { unit: 's', n: 0, modulate: false },
+        },
+    };
+    let roll = if rng.chance(1, 8) {
+        RollSpec::Delete
+    } else {
+        RollSpec::Fw { base: *rng.pick(&[0u32, 1]), count: *rng.pick(&[1u32, 3, 5, 500]), pat: *rng.pick(&[0u32, 0, 1, 2, 3]) }
+    };
+    let pivot = match &trig {
+        TrigSpec::Startup(m) => *m,
+        _ => 20,
+    };
+    let case = Case {
+        append: rng.chance(3, 4),
+        pre_active: if rng.chance(1, 4) { None } else { Some(around(rng, pivot).min(5000)) },
+        pre_arch: vec![],
+        trig,
+        roll,
+        clock0: 1_700_000_000,
+    };
+    let mut threads = vec![];
+    for t in 0..nthreads {
+        let mut recs = vec![];
+        for s in 0..nrecs {
+            let sizes = match rng.below(8) {
+                0 => vec![0],
+                1 => vec![8],
+                2 => vec![rng.range(1000, 1040)],
+                3 => vec![rng.range(8, 100), rng.range(8, 300)],
+                4 => vec![1024],
+                _ => vec![rng.range(8, 120)],
+            };
+            recs.push(RecSpec::Bin { id: (t + 1) * 65536 + s, sizes }.render());
+        }
+        threads.push(recs.join(","));
+    }
+    format!("conc\t{}\t{}\t{}", case.render(), rng.below(3), threads.join("|"))
+}
+
+pub fn gen(rng: &mut Rng, n: usize, thorough: bool, emit: &mut dyn FnMut(String)) {
+    for _ in 0..n {
+        emit(gen_seq_case(rng, thorough, TrigChoice::Any));
+    }
+    if thorough {
+        for _ in 0..(n / 20).max(5) {
+            emit(gen_conc_case(rng, thorough, TrigChoice::Any));
+        }
+    } else {
+        for _ in 0..(n / 40).max(3) {
+            emit(gen_conc_case(rng, thorough, TrigChoice::Any));
+        }
+    }
+}
+
+/// child-process entry point (`verif-harness child c05 …`); not needed by this property
 pub fn child(_args: &[String]) -> i32 {
     2
 }
